@@ -100,6 +100,14 @@ type tedCase struct {
 	S1, S2   *big.Int
 	InDomain bool
 	WantDef  bool // oracle value defined (no vanishing denominator)
+	// NoOracle: the case has no reference value.  ScalarMul of a point outside
+	// the prime-order subgroup by a scalar >= Order: the group law gives
+	// [s]P, the native library (gnark-crypto, which is what the honest hint and
+	// the property's "same group elements as the native library" refer to)
+	// reduces the scalar modulo Order on the GLV curve (Bandersnatch) and
+	// gives [s mod Order]P, different on low-order components; no doc comment
+	// of the package promises either.  Executed and counted, no verdict.
+	NoOracle bool
 	Want     [2]*big.Int
 	WantSat  bool // AssertIsOnCurve
 }
@@ -257,6 +265,9 @@ func (d *tedDesc) gen(rng *rand.Rand, quick bool) []*tedCase {
 			if !quick || p.n == "R1" || p.n == "B" || p.n == "identity" || p.n == "low-order" || p.n == "order2" || s.n == "random" {
 				w, ok := c.mul(p.p, s.v)
 				mk("ScalarMul", "s="+s.n+",P="+p.n, p.p, id, s.v, z, w, ok, s.in && p.prime)
+				if !p.prime && p.n != "identity" && s.v.Cmp(ord) >= 0 {
+					out[len(out)-1].NoOracle = true
+				}
 			}
 		}
 	}
@@ -309,6 +320,15 @@ func judgeTed(r *vcore.Run, c *tedCase, o outcome) {
 	switch {
 	case !c.WantDef:
 		r.Count("ted.oracle-undefined(vanishing-denominator)", 1)
+	case c.NoOracle:
+		what := "unsatisfiable"
+		if o.Sat && o.Correct {
+			what = "equals-the-group-law"
+		} else if o.Sat {
+			what = "differs-from-the-group-law"
+		}
+		r.Count("ted.no-verdict(point-outside-prime-subgroup,scalar>=order)."+what, 1)
+		r.SampleClass("ted/ScalarMul/no-verdict/"+what, map[string]any{"curve": c.Curve, "class": c.Class, "gadget": o.Got, "group_law": bigStrs(c.Want[:])})
 	case o.Sat && o.Correct:
 		if c.InDomain {
 			r.Count("ted.in-domain.correct", 1)
